@@ -1129,3 +1129,17 @@ Example ticker_runs :
             /\ sent s = [(260, 50, 0); (95, 100, 10)] /\ recvd s = [260; 95] /\ buf s = None
             /\ stopped s = true /\ gen s = 5 /\ mu s = MFree /\ length (timers s) = 4%nat.
 Proof. eexists. split; [vm_compute; reflexivity|]. repeat split. Qed.
+
+(* the guided matcher explores runs of the model only *)
+Lemma mstep_sound s pend l s' pend' : mstep (s, pend) l = Some (s', pend') -> step s l = Some s'.
+Proof.
+  unfold mstep. intros H.
+  destruct l;
+    try (destruct (step s _) as [s1|] eqn:E; [simpl in H; injection H as <- _; reflexivity | discriminate H]).
+  - destruct (mu s); try discriminate H;
+      (destruct (step s (LTick t)) as [s1|] eqn:E; [simpl in H; injection H as <- _; reflexivity | discriminate H]).
+  - destruct pend as [|v' pend0]; [discriminate H|]. destruct (v =? v'); [|discriminate H].
+    destruct (step s (LRecv v)) as [s1|] eqn:E; [simpl in H; injection H as <- _; reflexivity | discriminate H].
+  - destruct pend as [|v' pend0]; [discriminate H|]. destruct (now s =? v'); [|discriminate H].
+    destruct (step s (TFire k)) as [s1|] eqn:E; [simpl in H; injection H as <- _; reflexivity | discriminate H].
+Qed.
